@@ -3,7 +3,7 @@
 import re, sys
 PAT = r'''
 //@ fun pkey(prefix string, i int) string = "#" + path.Join(prefix, "parameters", strconv.Itoa(i))
-//@ fun hkey(refPref string, h string) string = "#" + path.Join(refPref, "headers", h)
+//@ fun hkey(refPref string, h string) string = "#" + path.Join(refPref, "headers", jsonpointer.Escape(h))
 
 // the items chain under an owner: every (key, KIND) pair it declares
 //@ fun itKIND(k string, p VT, items *spec.Items, prefix string, name string) bool = items != nil && ((k == "#" + path.Join(prefix, name) && p == items.FIELD && NONEMPTY(p)) || itKIND(k, p, items.Items, path.Join(prefix, name), name))
